@@ -1,5 +1,6 @@
 import PqVerif.Lemmas.PermLaws
 import PqVerif.Lemmas.PermSpec
+import PqVerif.Lemmas.HafEdgesLaws
 
 /-!
 # C04 — matrix-function kernels equal their combinatorial definitions (partial)
@@ -8,7 +9,10 @@ Proved here, about the algorithm model of `permanent_cpp` (`Model/Kernel.lean`):
 helper, the exact incremental weight update, each job = the direct BBFG summands, the one-thread
 value = the plain sum over all Gray codes, independence of the job partition, and the exact point
 where the C `int` weight stops being exact.  Also proved (`permanent_eq_permSpec`): the model's value IS the permanent with multiplicities (Glynn's
-formula).  NOT proved: the hafnian / torontonian / Pfaffian algorithms, and the equality of the `int`
+formula).  For the power-trace hafnian with reductions the combinatorial skeleton is proved (`Model/HafEdges.lean`): every
+admissible run of `match_occupation_numbers` terminates and its edge classes use each vertex exactly as often as the
+occupation numbers say; `get_kept_edges` is an injective, complement-symmetric enumeration of the compressed Glynn
+sign patterns whose weights add up to all `2^m` sign vectors.  NOT proved: the power-trace / torontonian / Pfaffian numerics, and the equality of the `int`
 kernel with the unbounded-integer model beyond the overflow guard — tied to the defining sums by exact
 correspondence only (see DESIGN.md).
 -/
@@ -77,5 +81,73 @@ theorem int32_overflow_witness :
     binomInit true [18, 18] [9, 9] ≠ binomInit false [18, 18] [9, 9] ∧
     binomInit false [18, 18] [9, 9] = 2363904400 :=
   Pq.Kernel.int32_overflow_witness
+
+/-! ### repeated-edge compression of the power-trace hafnian (`hafnian_with_reduction`) -/
+section HafEdges
+open Pq.HafEdges
+
+/-- **the edge classes reproduce the occupation numbers**: for EVERY admissible run of
+`match_occupation_numbers` (whatever `np.argsort` does with ties) on a vector of even total, each vertex `v` is an
+endpoint of exactly `nvec[v]` edge copies, the classes hold `sum(nvec) / 2` edges (`dim_over_2`), and no class is empty -/
+theorem match_edges_cover (nvec : List Nat) (es : List Edge) (fin : List Nat)
+    (h : replay nvec es = some fin) (heven : nvec.sum % 2 = 0) :
+    (∀ v, degree es v = HafEdges.get nvec v) ∧ (es.map (·.rep)).sum = nvec.sum / 2 ∧ ∀ e ∈ es, 0 < e.rep := by
+  obtain ⟨h1, h2, h3, h4⟩ := replay_spec es nvec fin h
+  have hf : fin.sum = 0 := by omega
+  refine ⟨fun v => ?_, by omega, h4⟩
+  have := h2 v
+  have := get_le_sum fin v
+  omega
+
+/-- odd total (not used by the hafnian, which returns 0 before): exactly one vertex copy is left over -/
+theorem match_edges_cover_odd (nvec : List Nat) (es : List Edge) (fin : List Nat)
+    (h : replay nvec es = some fin) (hodd : nvec.sum % 2 = 1) :
+    fin.sum = 1 ∧ (∀ v, degree es v + HafEdges.get fin v = HafEdges.get nvec v) := by
+  obtain ⟨h1, h2, h3, _⟩ := replay_spec es nvec fin h
+  exact ⟨by omega, h2⟩
+
+/-- **termination** of `while sum(nvec) > 1`: every admissible round strictly decreases the remaining total
+(so at most `sum(nvec) / 2` rounds run) and emits a non-empty class -/
+theorem match_round_decreases (nvec : List Nat) (i j : Nat) (h : top2 nvec i j = true) (hs : 1 < nvec.sum) :
+    (stepEdge nvec i j).1.sum < nvec.sum ∧ 0 < (stepEdge nvec i j).2.rep :=
+  ⟨step_decreases nvec i j h hs, step_rep_pos nvec i j h hs⟩
+
+/-- the single-vertex special case of the code -/
+theorem match_single_vertex (n : Nat) (h : n % 2 = 0) :
+    matchOcc [n] = [⟨n / 2, 0, 0⟩] ∧ degree (matchOcc [n]) 0 = n := by
+  refine ⟨rfl, ?_⟩
+  simp [matchOcc, degree]; omega
+
+-- non-vacuity: the executable resolution of the choice is an admissible, complete run (kernel-evaluated samples;
+-- the check replays the REAL function's runs through `replay` on every input it generates)
+example : replay [3, 1, 2] (matchOcc [3, 1, 2]) = some [0, 0, 0] := by decide
+example : replay [7, 1, 0, 2] (matchOcc [7, 1, 0, 2]) = some [0, 0, 0, 0] := by decide
+example : replay [2, 2, 2, 1] (matchOcc [2, 2, 2, 1]) = some [0, 0, 1, 0] := by decide
+example : (matchOcc [7, 1, 0, 2]).map (·.rep) = [3, 1, 1] := by decide
+
+/-- `get_kept_edges`: every digit is a number of kept edges of its class (`0 … rep`) -/
+theorem kept_edges_bounded (reps : List Nat) (idx : Nat) :
+    Valid (reps.map (· + 1)) (keptEdges reps idx) :=
+  valid_chainOf _ (by intro n hn; obtain ⟨r, _, rfl⟩ := List.mem_map.1 hn; omega) idx
+
+/-- distinct loop indices below `prod(all_edges + 1)` give distinct sign patterns -/
+theorem kept_edges_injective (reps : List Nat) (a b : Nat) (ha : a < patterns reps) (hb : b < patterns reps)
+    (h : keptEdges reps a = keptEdges reps b) : a = b :=
+  chainOf_inj _ (by intro n hn; obtain ⟨r, _, rfl⟩ := List.mem_map.1 hn; omega) a b
+    (by rw [total_map_succ]; exact ha) (by rw [total_map_succ]; exact hb) h
+
+/-- **why sweeping only `size = prod(all_edges + 1) // 2` indices is enough**: the mirrored index carries the
+complementary pattern (`delta ↦ -delta`), so the second half of the range repeats the first up to the global sign -/
+theorem kept_edges_complement (reps : List Nat) (idx : Nat) (h : idx < patterns reps) :
+    keptEdges reps (patterns reps - 1 - idx) = List.zipWith (fun r k => r - k) reps (keptEdges reps idx) :=
+  keptEdges_complement reps idx h
+
+/-- the `combinatorial_factor`s of all compressed patterns add up to the `2^(number of edges)` sign vectors of the
+uncompressed Glynn-type sum -/
+theorem pattern_weights_total (reps : List Nat) :
+    ((List.range (patterns reps)).map (fun idx => weight reps (keptEdges reps idx))).sum = 2 ^ reps.sum :=
+  weight_total reps
+
+end HafEdges
 
 end Pq.C04
